@@ -263,7 +263,7 @@ def gen_cases(chk, tier, tables, spec, docs_sections, pdefs):
         for s in spec.sections(ep):
             for o in tables['classes'].get(s, []):
                 cases.append({'ep': ep, 'files': {r.choice(ROLES): {s: {o: file_value(r, o)}}}, 'flags': {}, 'src': 'single'})
-    n = 700 if tier == 'quick' else 9000
+    n = 700 if tier == 'quick' else 6000
     for _ in range(n):
         c = gen_case(r, tables, spec, docs_sections, pdefs); c['src'] = 'rand'; cases.append(c)
     for _ in range(n // 8):
@@ -453,6 +453,12 @@ def run(tier, seed):
     # shrink all discrepancies in lock-step (shared interpreters), group the minimal cases by structure, then confirm
     # one representative per group alone in a FRESH interpreter: if it no longer fails there, the result depended on
     # what the process did before, which is itself a violation
+    CAP = 400 if tier == 'quick' else 1500
+    for i, d, got, want in failing[CAP:]:     # a flood of discrepancies: the tail is reported unshrunk
+        chk.violation('not-shrunk:%s:%s:%s' % (d[0], cases[i]['ep'], d[1]),
+                      {'ep': cases[i]['ep'], 'files': cases[i]['files'], 'flags': cases[i].get('flags', {})},
+                      {'discrepancy': d[0], 'option': d[1], 'implementation': got, 'documented_rule': want})
+    failing_all, failing = failing, failing[:CAP]
     shrunk = shrink_all(spec, [(cases[i], d) for i, d, _, _ in failing], bases)
     T['shrink'] = time.time() - t; t = time.time()
     groups = {}
@@ -495,7 +501,7 @@ def run(tier, seed):
         'rule': 'entry point x config files in <=3 of 4 sandboxed directories (cwd, JUPYTER_CONFIG_PATH, JUPYTER_CONFIG_DIR, system) x flag subsets: corpus (refutation witnesses first), every (entry point, documented section, option) alone, random well-typed assignments (12% nulls, 15% sections of other entry points), ill-typed cases for T1 only; non-trivial = well-typed and at least one assignment in a section documented for the entry point, distinct by canonical JSON of (entry point, files, flags)',
         'input_distribution': hist, 'traces_validated_against_impl': compared,
         'model_impl_mismatches': len(bad) if bad is not None else None,
-        'discrepancies_with_documented_rule': len(failing), 'distinct_minimal_discrepancies': len(reps), 'exhaustive': False,
+        'discrepancies_with_documented_rule': len(failing_all), 'distinct_minimal_discrepancies': len(reps), 'exhaustive': False,
     })
     for c in cases[:2] + cases[len(CORPUS) + 300:len(CORPUS) + 302] + cases[-1:]:
         chk.sample({'ep': c['ep'], 'files': c['files'], 'flags': c.get('flags', {})})
